@@ -32,6 +32,7 @@ import Bmc.Proofs.GenDec.SessionSelector
 import Bmc.Proofs.GenDec.Message
 import Bmc.Proofs.GenDec.GetDCMICapabilitiesInfoEnhancedSystemPowerStatisticsAttrsRsp
 import Bmc.Proofs.GenDec.GetDCMISensorInfoRsp
+import Bmc.Proofs.ApiWrappers
 #print axioms Bmc.Proofs.C07.deviceID_decode_spec
 #print axioms Bmc.Proofs.C07.deviceID_short
 #print axioms Bmc.Proofs.C07.message_decode_spec_response
@@ -172,3 +173,6 @@ import Bmc.Proofs.GenDec.GetDCMISensorInfoRsp
 #print axioms Bmc.Proofs.GenDec.Message_gen_eq
 #print axioms Bmc.Proofs.GenDec.GetDCMICapabilitiesInfoEnhancedSystemPowerStatisticsAttrsRsp_gen_eq
 #print axioms Bmc.Proofs.GenDec.GetDCMISensorInfoRsp_gen_eq
+#print axioms Bmc.Proofs.ApiWrappers.api_wrappers
+#print axioms Bmc.Proofs.ApiWrappers.api_other_senders
+#print axioms Bmc.Proofs.ApiWrappers.api_cmd_constructors
